@@ -47,6 +47,12 @@ type World struct {
 	now     time.Time
 	inBlock bool
 	hdr     tmproto.Header
+	// CometBFT applies the validator updates returned by EndBlock(H) to the set that validates block H+2, and the
+	// LastCommitInfo of BeginBlock(H) carries the votes of validators(H-1): with `delay`, setAt records validators(h)
+	// at its change points and Block() derives the commit votes / the proposer from it (valSet stays the NEWEST set,
+	// the one every returned update has been applied to)
+	delay bool
+	setAt map[int64]*tmtypes.ValidatorSet
 }
 
 type WorldOpts struct {
@@ -55,6 +61,8 @@ type WorldOpts struct {
 	SudoAccs   []int                                // accounts given role 1 (sudo)
 	MutGenesis func(w *World, gs simapp.GenesisState) // last-minute genesis edits
 	T0         time.Time
+	// CommitDelay: deliver the consensus engine's real timing of validator-set changes (see World.delay)
+	CommitDelay bool
 }
 
 func detKey(i int) cryptotypes.PrivKey {
@@ -135,8 +143,33 @@ func NewWorld(o WorldOpts) *World {
 	} else {
 		w.valSet = &tmtypes.ValidatorSet{}
 	}
+	w.delay = o.CommitDelay
+	w.setAt = map[int64]*tmtypes.ValidatorSet{1: w.valSet}
 	return w
 }
+
+// validators(h): the set that validates block h
+func (w *World) setFor(h int64) *tmtypes.ValidatorSet {
+	if !w.delay {
+		return w.valSet
+	}
+	if h < 1 {
+		h = 1
+	}
+	best := int64(0)
+	for k := range w.setAt {
+		if k <= h && k > best {
+			best = k
+		}
+	}
+	return w.setAt[best]
+}
+
+// CommitSet: the validators whose votes the NEXT block's LastCommitInfo carries (BlockOpts.Absent indexes into it)
+func (w *World) CommitSet() *tmtypes.ValidatorSet { return w.setFor(w.height) }
+
+// ProposerSet: the validators one of which proposes the NEXT block (BlockOpts.Proposer indexes into it)
+func (w *World) ProposerSet() *tmtypes.ValidatorSet { return w.setFor(w.height + 1) }
 
 type BlockOpts struct {
 	Absent   map[int]bool // index into current valSet
@@ -168,16 +201,17 @@ func (w *World) Block(txs [][]byte, o BlockOpts) (br BlockResult) {
 	}
 	w.now = w.now.Add(o.Dt)
 	var votes []abci.VoteInfo
-	for i, v := range w.valSet.Validators {
+	commit, propSet := w.setFor(w.height-1), w.setFor(w.height)
+	for i, v := range commit.Validators {
 		votes = append(votes, abci.VoteInfo{Validator: abci.Validator{Address: v.Address, Power: v.VotingPower}, SignedLastBlock: !o.Absent[i]})
 	}
 	var proposer []byte
-	if n := len(w.valSet.Validators); n > 0 {
+	if n := len(propSet.Validators); n > 0 {
 		p := o.Proposer
 		if p < 0 || p >= n {
 			p = int(w.height) % n
 		}
-		proposer = w.valSet.Validators[p].Address
+		proposer = propSet.Validators[p].Address
 	}
 	w.hdr = tmproto.Header{ChainID: chainID, Height: w.height, Time: w.now, ProposerAddress: proposer}
 	w.app.BeginBlock(abci.RequestBeginBlock{Header: w.hdr, LastCommitInfo: abci.CommitInfo{Votes: votes}, ByzantineValidators: o.Evidence})
@@ -213,6 +247,7 @@ func (w *World) ApplyUpdates(upd []abci.ValidatorUpdate) error {
 		return err
 	}
 	w.valSet = nv
+	w.setAt[w.height+2] = nv // the updates of block `height` take effect at height+2
 	return nil
 }
 
